@@ -15,7 +15,19 @@ pub const ID: &str = "C02";
 /// Returns per document (engine three-valued result, admissible set, whether a sub-result was
 /// widened because it is not judged).
 pub fn eval_case(case: &Case) -> Result<Vec<(Tri, reference::RSet, bool)>, Outcome> {
-    eval_case_impl(case, true)
+    eval_case_impl(case, OptimisedCheck::WideEnvelope)
+}
+
+/// How the shared oracle treats the optimised rule.
+#[derive(Clone, Copy, PartialEq)]
+pub enum OptimisedCheck {
+    /// not at all (C02 is stated for the unoptimised rule)
+    Off,
+    /// a differing verdict must be admissible under C01's structural model of K1 / K2
+    Tight,
+    /// a differing verdict must be admissible when every and-group is relaxed (an envelope that
+    /// certainly contains K1 / K2)
+    WideEnvelope,
 }
 
 /// `with_optimised`: the properties that use this oracle (C05, C07, C09, C10) speak about
@@ -24,7 +36,7 @@ pub fn eval_case(case: &Case) -> Result<Vec<(Tri, reference::RSet, bool)>, Outco
 /// differs from the unoptimised one must be explained by the known findings K1 / K2 exactly as in
 /// C01 (relaxed reference for that switch set). C02 itself is stated for the unoptimised rule and
 /// leaves this to C01.
-pub fn eval_case_impl(case: &Case, with_optimised: bool) -> Result<Vec<(Tri, reference::RSet, bool)>, Outcome> {
+pub fn eval_case_impl(case: &Case, with_optimised: OptimisedCheck) -> Result<Vec<(Tri, reference::RSet, bool)>, Outcome> {
     let text = &case.rules[0];
     let neg_text = &case.rules[1];
     let refrule = match reference::load_rule_text(text, false) {
@@ -62,10 +74,10 @@ pub fn eval_case_impl(case: &Case, with_optimised: bool) -> Result<Vec<(Tri, ref
     // unoptimised engine
     let exact = std::env::var("VERIF_EXACT_SELFTEST").is_ok();
     let ev = Evaluator::new(&refrule, EvalOpts { engine_exact: exact, ..EvalOpts::default() });
-    if with_optimised {
-        optimised_agreement(text, &rule, Some(&refrule), "", &case.docs)?;
+    if with_optimised != OptimisedCheck::Off {
+        optimised_agreement_with(text, &rule, Some(&refrule), "", &case.docs, with_optimised == OptimisedCheck::WideEnvelope)?;
         let neg_ref = reference::load_rule_text(neg_text, false).ok();
-        optimised_agreement(neg_text, &neg_rule, neg_ref.as_ref(), "negated ", &case.docs)?;
+        optimised_agreement_with(neg_text, &neg_rule, neg_ref.as_ref(), "negated ", &case.docs, with_optimised == OptimisedCheck::WideEnvelope)?;
     }
     let mut out = vec![];
     NJ_REASONS.with(|r| r.borrow_mut().clear());
@@ -113,6 +125,17 @@ pub fn optimised_agreement(
     which: &str,
     docs: &[crate::model::DObj],
 ) -> Result<(), Outcome> {
+    optimised_agreement_with(text, rule, refrule, which, docs, true)
+}
+
+pub fn optimised_agreement_with(
+    text: &str,
+    rule: &tau_engine::Rule,
+    refrule: Option<&reference::RefRule>,
+    which: &str,
+    docs: &[crate::model::DObj],
+    wide: bool,
+) -> Result<(), Outcome> {
     let extra = 1 + (hash_str(text) % 14) as u8;
     for bits in [15u8, extra] {
         let sw = engine::Switches::from_bits(bits);
@@ -135,7 +158,14 @@ pub fn optimised_agreement(
             }
             // explained by and-reordering / double-negation removal (K1, K2)?
             if let Some(rr) = refrule {
-                let rel = Evaluator::new(rr, EvalOpts { relaxed: true, shake: sw.shake, matrix: sw.matrix, engine_exact: true });
+                // the wide envelope: every and-group may yield any non-true operand's result, and
+                // a double negation may cancel, if shake or matrix is on at all
+                let rel = if wide {
+                    let on = sw.shake || sw.matrix;
+                    Evaluator::new(rr, EvalOpts { relaxed: true, shake: on, matrix: on, engine_exact: true, wide: on })
+                } else {
+                    Evaluator::new(rr, EvalOpts { relaxed: true, shake: sw.shake, matrix: sw.matrix, engine_exact: true, wide: false })
+                };
                 if reference::verdict_admissible(rel.eval(doc), got) {
                     continue;
                 }
@@ -157,7 +187,7 @@ thread_local! {
 }
 
 pub fn judge(case: &Case) -> Outcome {
-    let results = match eval_case_impl(case, false) {
+    let results = match eval_case_impl(case, OptimisedCheck::Off) {
         Ok(r) => r,
         Err(o) => return o,
     };
